@@ -8,6 +8,7 @@ mutations live in /verif/selftest/<PROPERTY>.toml:
   [[mutation]] name, file, find, replace, nth (1-based, default 1), expect = "violation"|"pass", obligation = "substring"
 """
 import argparse, json, os, subprocess, sys, tomllib, time
+os.environ["VERIF_EVIDENCE_DIR"] = "/var/tmp/vp-scratch-evidence"
 
 VERIF = os.path.dirname(os.path.dirname(os.path.abspath(__file__)))
 REPO = "/repo"
